@@ -157,6 +157,42 @@ class Check:
             return o
         return self.prove(name, fkey, pc, sp.Eq(diff, 0), timeout_ms=timeout_ms, replay=replay)
 
+    def prove_equiv(self, name, fkey, pc, a, b, timeout_ms=None, replay=None):
+        """a <=> b: relations of the same kind whose difference-of-sides have the same normal form are
+        identical conditions (checked conjunct by conjunct); otherwise SMT"""
+        t0 = time.time()
+        a, b = sp.sympify(a), sp.sympify(b)
+
+        def same(x, y):
+            if x == y:
+                return True
+            if isinstance(x, sp.core.relational.Relational) and type(x) is type(y):
+                return normal_form((x.lhs - x.rhs) - (y.lhs - y.rhs)) == 0
+            if isinstance(x, (sp.And, sp.Or)) and type(x) is type(y) and len(x.args) == len(y.args):
+                ya = list(y.args)
+                for xa in x.args:
+                    for k, cand in enumerate(ya):
+                        if same(xa, cand):
+                            ya.pop(k)
+                            break
+                    else:
+                        return False
+                return True
+            return False
+        hit = same(a, b)
+        if not hit and a in (sp.true, sp.false):
+            # the code decided the condition on this path: the path condition must contain it (or its negation)
+            want = b if a is sp.true else sp.Not(b)
+            hit = any(same(c, want) for c in pc)
+        if hit:
+            o = self._new(name, fkey)
+            o.goal = f"{_short(a)} <=> {_short(b)}"
+            o.pc = _short(sp.And(*pc)) if pc else "True"
+            o.status, o.backend, o.time_s = "proved", "sympy-normal-form", time.time() - t0
+            self._after(o)
+            return o
+        return self.prove(name, fkey, pc, sp.Equivalent(a, b), timeout_ms=timeout_ms, replay=replay)
+
     def record(self, name, fkey, status, backend, detail="", model=None, replay=None, goal="", kind="deductive"):
         o = self._new(name, fkey, kind)
         o.status, o.backend, o.detail, o.model, o.replay, o.goal = status, backend, detail, model, replay, goal
